@@ -5,6 +5,9 @@ import VarmqVerif.Model.Sig2
 import VarmqVerif.Model.Race
 import VarmqVerif.Model.Metr
 import VarmqVerif.Model.Trim
+import VarmqVerif.Model.Reap
+import VarmqVerif.Model.Disp
+import VarmqVerif.Model.Config
 import VarmqVerif.Model.Wake
 import VarmqVerif.Model.Ack
 import VarmqVerif.Model.Pool
@@ -806,4 +809,149 @@ def feed (st : RState St) (lineNo : Nat) (l : RawLine) : RState St :=
       | .error e => .rejected lineNo s!"{e} @ {l.tag} {l.g} {" ".intercalate l.f}"
   | r => r
 end TrimMap
+/-! ## Reap: the pool under an idle-worker expiry (reaper passes, per-run stop channel) -/
+namespace ReapMap
+open Reap
+
+structure St where
+  s : Reap.State := {}
+  expiry : Bool := false                -- a ticker was created: the worker has an idle-worker expiry
+  serveOf : List (Nat × Nat) := []      -- server goroutine ↦ pool node
+  popNil : List Nat := []               -- dispatchers whose PopBack returned nil (a worker is being created)
+  reaperRun : List (Nat × Nat) := []    -- reaper goroutine ↦ number of the run that started it
+  lastConc : List (Nat × Nat) := []     -- goroutine ↦ limit it loaded in numMinIdleWorkers
+  pend : List (Nat × Nat) := []         -- goroutine ↦ node argument of the List call in progress
+
+def nodeId (s : String) : Nat := natOf ((s.splitOn "#").getD 1 "")
+def aget (l : List (Nat × Nat)) (k : Nat) : Option Nat := (l.find? (·.1 == k)).map (·.2)
+def aset (l : List (Nat × Nat)) (k v : Nat) : List (Nat × Nat) := (k, v) :: l.filter (·.1 != k)
+
+/-- "[Node#1,Node#2]" → [1,2] -/
+def nodeList (s : String) : List Nat :=
+  let inner := ((s.drop 1).toString.dropEnd 1).toString
+  if inner.isEmpty then [] else (inner.splitOn ",").map nodeId
+
+/-- numMinIdleWorkers() for the limit the reaper loaded: the code's arithmetic (model Config, uint32 wrap included);
+    `ratio` is what the program passed to WithMinIdleWorkerRatio (0 = option not used), clamped like the option does -/
+def target (ratio conc : Nat) : Nat :=
+  let pct := if ratio == 0 then 0 else min ratio 100
+  (Config.numMinIdleWorkersI conc pct).toNat
+
+def events (ratio : Nat) (x : St) (l : RawLine) : Except String (St × List Ev) :=
+  let g := l.g
+  match l.tag, l.f with
+  | "E", [fn, obj, op, arg, res] =>
+    if obj.startsWith "List#" && !(obj == "List#1" || obj.startsWith "List#1.") then .error "NA second worker"
+    else if op == "newticker" then .ok ({ x with expiry := true }, [])
+    else if fn == "worker.goRemoveIdleWorkers" && op == "go" then
+      .ok ({ x with reaperRun := aset x.reaperRun (natOf (arg.drop 1).toString) x.s.gen }, [])
+    else if fn == "worker.numMinIdleWorkers" && op == "load" then .ok ({ x with lastConc := aset x.lastConc g (natOf res) }, [])
+    else if fn == "worker.stopTickers" && op == "close" then .ok (x, [.kill])
+    else if fn == "worker.initPoolNode" && op == "get" then
+      if x.popNil.contains g then .ok ({ x with popNil := x.popNil.filter (· != g) }, [.create (nodeId res)])
+      else .ok (x, [])
+    else if fn == "Node.Serve" && op == "call:Serve" then .ok ({ x with serveOf := aset x.serveOf g (nodeId obj) }, [])
+    else if obj == "List#1" && op == "ret:PopBack" then
+      if res == "nil" then .ok ({ x with popNil := g :: x.popNil }, []) else .ok (x, [.take (nodeId res)])
+    else if obj == "List#1" && (op == "call:PushNode" || op == "call:Remove") then .ok ({ x with pend := aset x.pend g (nodeId arg) }, [])
+    else if obj == "List#1" && op == "ret:PushNode" then
+      if !x.expiry then .error "NA no idle-worker expiry (model Trim)"
+      else match aget x.pend g, aget x.serveOf g with
+      | some n, some k => if n == k then .ok (x, [.back n]) else .error s!"worker goroutine of node {k} pushed node {n}"
+      | some n, none => .ok (x, [.start n])
+      | none, _ => .error "PushNode return without call"
+    else if obj == "List#1" && op == "ret:NodeSlice" then
+      match aget x.reaperRun g with
+      | some r =>
+        let snap := nodeList res
+        if snap != x.s.idle then .error s!"NodeSlice returned {snap} but the idle list is {x.s.idle}"
+        else match aget x.lastConc g with
+          | some c => .ok (x, [.snap r (target ratio c)])
+          | none => .error "reaper snapshot without numMinIdleWorkers()"
+      | none => .ok (x, [.stopAll])
+    else if obj == "List#1" && op == "ret:Remove" then
+      match aget x.reaperRun g, aget x.pend g with
+      | some r, some n => .ok (x, [.rmv r n (res == "true")])
+      | some _, none => .error "Remove return without call"
+      | none, some n => .ok (x, [.stopRmv n (res == "true")])     -- stopAndRemoveAllWorkers
+      | none, none => .error "Remove return without call"
+    else if fn == "Node.Stop" && op == "call:Stop" && (aget x.serveOf g).isSome && x.expiry then
+      .error "a worker goroutine stopped a worker although an idle-worker expiry is configured (freePoolNode always keeps the worker then)"
+    else if obj == "List#1" && op == "ret:PopBackIfLonger" && res != "nil" && x.expiry then
+      .error "TunePool took a worker out of the idle list although an idle-worker expiry is configured"
+    else .ok (x, [])
+  | _, _ => .ok (x, [])
+
+def feed (ratio : Nat) (st : RState St) (lineNo : Nat) (l : RawLine) : RState St :=
+  match st with
+  | .ok x =>
+    match events ratio x l with
+    | .error e => if e.startsWith "NA" then .na e else .rejected lineNo s!"{e} @ {l.tag} {l.g} {" ".intercalate l.f}"
+    | .ok (x', evs) =>
+      match feedAll (Reap.step false) x'.s evs with
+      | .ok s' => .ok { x' with s := s' }
+      | .error e => .rejected lineNo s!"{e} @ {l.tag} {l.g} {" ".intercalate l.f}"
+  | r => r
+end ReapMap
+/-! ## Disp: execution order against hand-out order -/
+namespace DispMap
+open Disp
+
+structure St where
+  s : Disp.State := {}
+  names : List (String × Nat) := []     -- job handle name ↦ number
+  slot : List Nat := []                 -- dispatcher goroutines that hold a slot taken in reserve()
+  lastDeq : List (Nat × Nat) := []      -- dispatcher goroutine ↦ job it dequeued and has not handed over yet
+  curJob : List (Nat × Nat) := []       -- pool goroutine ↦ job whose worker function it entered
+
+def idx (tab : List (String × Nat)) (name : String) : Nat × List (String × Nat) :=
+  match tab.find? (·.1 == name) with
+  | some (_, i) => (i, tab)
+  | none => (tab.length, (name, tab.length) :: tab)
+def aget (l : List (Nat × Nat)) (k : Nat) : Option Nat := (l.find? (·.1 == k)).map (·.2)
+def aset (l : List (Nat × Nat)) (k v : Nat) : List (Nat × Nat) := (k, v) :: l.filter (·.1 != k)
+def adel (l : List (Nat × Nat)) (k : Nat) : List (Nat × Nat) := l.filter (·.1 != k)
+
+def events (x : St) (l : RawLine) : Except String (St × List Ev) :=
+  let g := l.g
+  match l.tag, l.f with
+  | "A", _ => .error "NA adapter-backed queue (jobs are re-created from bytes)"
+  | "W", "enter" :: _ :: _ :: name :: _ =>
+    let (j, names) := idx x.names name
+    .ok ({ x with names := names, curJob := aset x.curJob g j }, [.enter j])
+  | "E", [fn, obj, op, arg, res] =>
+    if obj.startsWith "worker#" && !(obj.startsWith "worker#1.") then .error "NA second worker"
+    else if obj == "worker#1.concurrency" && op == "load" then .ok (x, [.lim (natOf res)])
+    else if obj == "worker#1.concurrency" && op == "store" then .ok (x, [.lim (natOf arg)])
+    else if fn == "worker.reserve" && obj == "worker#1.curProcessing" && op == "cas" && res == "true" then
+      .ok ({ x with slot := g :: x.slot.filter (· != g) }, [])
+    else if (fn == "Queue.Dequeue" || fn == "PriorityQueue.Dequeue") && op == "ret:Dequeue" && x.slot.contains g then
+      match res.splitOn "," with
+      | [name, "true"] =>
+        let (j, names) := idx x.names name
+        .ok ({ x with names := names, lastDeq := aset x.lastDeq g j }, [.deq j])
+      | _ => .ok (x, [])
+    else if fn == "Node.Send" && op == "call:Send" then
+      .ok ({ x with lastDeq := adel x.lastDeq g, slot := x.slot.filter (· != g) }, [])
+    else if obj == "worker#1.curProcessing" && op == "add" && (arg == "-1" || arg == "4294967295") then
+      match aget x.curJob g with
+      | some j => .ok ({ x with curJob := adel x.curJob g }, [.done j])
+      | none =>
+        match aget x.lastDeq g with
+        | some j => .ok ({ x with lastDeq := adel x.lastDeq g, slot := x.slot.filter (· != g) }, [.done j])
+        | none => .ok ({ x with slot := x.slot.filter (· != g) }, [])
+    else .ok (x, [])
+  | _, _ => .ok (x, [])
+
+def feed (st : RState St) (lineNo : Nat) (l : RawLine) : RState St :=
+  match st with
+  | .ok x =>
+    match events x l with
+    | .error e => if e.startsWith "NA" then .na e else .rejected lineNo s!"{e} @ {l.tag} {l.g} {" ".intercalate l.f}"
+    | .ok (x', evs) =>
+      match feedAll Disp.step x'.s evs with
+      | .ok s' => .ok { x' with s := s' }
+      | .error e => .rejected lineNo s!"{e} @ {l.tag} {l.g} {" ".intercalate l.f}"
+  | r => r
+end DispMap
 end VarmqVerif.Driver
